@@ -389,3 +389,288 @@ Proof.
   split; [right; left; reflexivity|]. split; [|reflexivity].
   simpl. intros [H|[]]. discriminate.
 Qed.
+
+(* ------------------------------------------------------------------------------------------ *)
+(** * hdiff is reflexive and symmetric in whether differences are found *)
+
+Lemma zlist_eqb_eq : forall a b, zlist_eqb a b = true <-> a = b.
+Proof.
+  induction a as [|x a IH]; intros [|y b]; simpl; split; intros H; try reflexivity; try discriminate.
+  - apply andb_true_iff in H. destruct H as [H1 H2]. apply Z.eqb_eq in H1. apply IH in H2. congruence.
+  - injection H as -> ->. rewrite Z.eqb_refl. simpl. apply IH. reflexivity.
+Qed.
+Lemma zlist_eqb_refl a : zlist_eqb a a = true.
+Proof. apply zlist_eqb_eq. reflexivity. Qed.
+Lemma zlist_eqb_sym : forall a b, zlist_eqb a b = zlist_eqb b a.
+Proof. induction a as [|x a IH]; intros [|y b]; simpl; try reflexivity. rewrite (Z.eqb_sym x y), IH. reflexivity. Qed.
+
+Lemma ad_kind_cases nt :
+  ad_kind nt = ADInt br8 \/ ad_kind nt = ADInt br16 \/ ad_kind nt = ADInt br32 \/ ad_kind nt = ADFloat \/ ad_kind nt = ADBad.
+Proof. unfold ad_kind. destruct (zmem nt ad8_types); auto. destruct (zmem nt ad16_types); auto.
+  destruct (zmem nt ad32_types); auto. destruct (_ || _); auto. Qed.
+
+Lemma flagged_sym8 x y : flagged br8 x y = flagged br8 y x.
+Proof.
+  unfold flagged, br8; cbn [br_over br_diff br_sg br_bits]. unfold ad8_elt_signed, ad8_elt_bits, reinterp, ad8_over.
+  pose proof (swrap8_range x). pose proof (swrap8_range y). rewrite !ad8_diff_abs by lia.
+  replace (swrap 8 y - swrap 8 x) with (- (swrap 8 x - swrap 8 y)) by lia. rewrite Z.abs_opp. reflexivity.
+Qed.
+Lemma flagged_sym16 x y : flagged br16 x y = flagged br16 y x.
+Proof.
+  unfold flagged, br16; cbn [br_over br_diff br_sg br_bits]. unfold ad16_elt_signed, ad16_elt_bits, reinterp, ad16_over.
+  pose proof (swrap16_range x). pose proof (swrap16_range y). rewrite !ad16_diff_abs by lia.
+  replace (swrap 16 y - swrap 16 x) with (- (swrap 16 x - swrap 16 y)) by lia. rewrite Z.abs_opp. reflexivity.
+Qed.
+Lemma flagged_sym32 x y : flagged br32 x y = flagged br32 y x.
+Proof.
+  unfold flagged, br32; cbn [br_over br_diff br_sg br_bits]. unfold ad32_elt_signed, ad32_elt_bits, reinterp, ad32_over.
+  pose proof (swrap32_range x). pose proof (swrap32_range y). rewrite !ad32_diff_sat by lia.
+  replace (swrap 32 y - swrap 32 x) with (- (swrap 32 x - swrap 32 y)) by lia. rewrite Z.abs_opp. reflexivity.
+Qed.
+
+Lemma flagged_positions_sym br : (forall x y, flagged br x y = flagged br y x) ->
+  forall a b i, flagged_positions br i a b = flagged_positions br i b a.
+Proof.
+  intros F. induction a as [|x a IH]; intros [|y b] i; simpl; try reflexivity.
+  rewrite (F x y), IH. reflexivity.
+Qed.
+
+Lemma spec_positions_sym : forall a b i, spec_diff_positions i a b = spec_diff_positions i b a.
+Proof. induction a as [|x a IH]; intros [|y b] i; simpl; try reflexivity. rewrite (Z.eqb_sym x y), IH. reflexivity. Qed.
+
+Lemma ad_count_sym nt m m' a b : ad_count nt (opts0 m) a b = ad_count nt (opts0 m') b a.
+Proof.
+  unfold ad_count, array_diff_m.
+  destruct (ad_kind_cases nt) as [K|[K|[K|[K|K]]]]; rewrite K.
+  - rewrite !ad_loop_count, (flagged_positions_sym br8 flagged_sym8). reflexivity.
+  - rewrite !ad_loop_count, (flagged_positions_sym br16 flagged_sym16). reflexivity.
+  - rewrite !ad_loop_count, (flagged_positions_sym br32 flagged_sym32). reflexivity.
+  - rewrite !ad_float_count, spec_positions_sym. reflexivity.
+  - reflexivity.
+Qed.
+
+Lemma flagged_positions_refl br : (forall x, flagged br x x = false) -> forall a i, flagged_positions br i a a = [].
+Proof. intros F. induction a as [|x a IH]; intros i; simpl; [reflexivity|]. rewrite F. apply IH. Qed.
+
+Lemma spec_positions_refl : forall a i, spec_diff_positions i a a = [].
+Proof. induction a as [|x a IH]; intros i; simpl; [reflexivity|]. rewrite Z.eqb_refl. apply IH. Qed.
+
+Lemma ad_count_refl nt m a : ad_count nt (opts0 m) a a = 0.
+Proof.
+  unfold ad_count, array_diff_m.
+  destruct (ad_kind_cases nt) as [K|[K|[K|[K|K]]]]; rewrite K.
+  - rewrite ad_loop_count, flagged_positions_refl; [reflexivity|]. intros x. rewrite flagged_br8 by (rewrite Z.sub_diag; simpl; lia). rewrite Z.eqb_refl. reflexivity.
+  - rewrite ad_loop_count, flagged_positions_refl; [reflexivity|]. intros x. rewrite flagged_br16 by (rewrite Z.sub_diag; simpl; lia). rewrite Z.eqb_refl. reflexivity.
+  - rewrite ad_loop_count, flagged_positions_refl; [reflexivity|]. intros x. rewrite flagged_br32 by (rewrite Z.sub_diag; simpl; lia). rewrite Z.eqb_refl. reflexivity.
+  - rewrite ad_float_count, spec_positions_refl. reflexivity.
+  - reflexivity.
+Qed.
+
+Lemma attrs_diff_loop_refl : forall a, attrs_diff_loop a a = 0.
+Proof. induction a as [|x a IH]; simpl; [reflexivity|]. rewrite !Z.eqb_refl, !zlist_eqb_refl. simpl. assumption. Qed.
+
+Lemma attrs_diff_loop_sym : forall a b, attrs_diff_loop a b = attrs_diff_loop b a.
+Proof.
+  induction a as [|x a IH]; intros [|y b]; simpl; try reflexivity.
+  rewrite (Z.eqb_sym (a_type x)), (Z.eqb_sym (Z.of_nat (length (a_vals x)))), (zlist_eqb_sym (a_name x)), (zlist_eqb_sym (a_vals x)), IH.
+  reflexivity.
+Qed.
+
+Lemma diff_sds_m_refl t d v a : diff_sds_m t d v a t d v a = 0.
+Proof.
+  unfold diff_sds_m. rewrite Z.eqb_refl, zlist_eqb_refl. simpl. destruct v; [reflexivity|].
+  rewrite ad_count_refl. unfold sds_attrs_diff. rewrite Z.eqb_refl. simpl. apply attrs_diff_loop_refl.
+Qed.
+
+Lemma diff_sds_m_sym t1 d1 v1 a1 t2 d2 v2 a2 : diff_sds_m t1 d1 v1 a1 t2 d2 v2 a2 = diff_sds_m t2 d2 v2 a2 t1 d1 v1 a1.
+Proof.
+  unfold diff_sds_m. rewrite (Z.eqb_sym t2 t1), (zlist_eqb_sym d2 d1).
+  destruct (Z.eqb_spec t1 t2) as [->|]; [|reflexivity]. simpl.
+  destruct (zlist_eqb d1 d2); [|reflexivity]. simpl.
+  destruct v1, v2; try reflexivity.
+  rewrite (ad_count_sym t2 (zprod d1) (zprod d2)). unfold sds_attrs_diff.
+  rewrite (Z.eqb_sym (Z.of_nat (length a2))), (attrs_diff_loop_sym a2 a1). reflexivity.
+Qed.
+
+Lemma diff_gr_m_refl t c x y v : diff_gr_m t c x y v t c x y v = 0.
+Proof. unfold diff_gr_m. rewrite !Z.eqb_refl, zlist_eqb_refl. reflexivity. Qed.
+
+Lemma diff_gr_m_sym t1 c1 x1 y1 v1 t2 c2 x2 y2 v2 : diff_gr_m t1 c1 x1 y1 v1 t2 c2 x2 y2 v2 = diff_gr_m t2 c2 x2 y2 v2 t1 c1 x1 y1 v1.
+Proof.
+  unfold diff_gr_m. rewrite (Z.eqb_sym t2 t1), (Z.eqb_sym c2 c1), (Z.eqb_sym x2 x1), (Z.eqb_sym y2 y1), (zlist_eqb_sym v2 v1).
+  destruct (Z.eqb_spec t1 t2) as [->|]; [|reflexivity].
+  destruct (Z.eqb_spec c1 c2) as [->|]; [|reflexivity].
+  destruct (Z.eqb_spec x1 x2) as [->|]; [|reflexivity].
+  destruct (Z.eqb_spec y1 y2) as [->|]; [|reflexivity]. simpl.
+  destruct (zlist_eqb v1 v2); [reflexivity|]. apply ad_count_sym.
+Qed.
+
+Lemma field_eqb_sym f g : field_eqb f g = field_eqb g f.
+Proof. unfold field_eqb. rewrite (zlist_eqb_sym (fst f)), (Z.eqb_sym (fst (snd f))), (Z.eqb_sym (snd (snd f))). reflexivity. Qed.
+Lemma field_eqb_refl f : field_eqb f f = true.
+Proof. unfold field_eqb. rewrite zlist_eqb_refl, !Z.eqb_refl. reflexivity. Qed.
+Lemma list_eqb_sym {A} (e : A -> A -> bool) : (forall x y, e x y = e y x) -> forall a b, list_eqb e a b = list_eqb e b a.
+Proof. intros S. induction a as [|x a IH]; intros [|y b]; simpl; try reflexivity. rewrite (S x y), IH. reflexivity. Qed.
+Lemma list_eqb_refl {A} (e : A -> A -> bool) : (forall x, e x x = true) -> forall a, list_eqb e a a = true.
+Proof. intros R. induction a as [|x a IH]; simpl; [reflexivity|]. rewrite R, IH. reflexivity. Qed.
+
+Lemma diff_vs_m_refl n f v : diff_vs_m n f v n f v = 0.
+Proof. unfold diff_vs_m. rewrite Z.eqb_refl, (list_eqb_refl _ field_eqb_refl), zlist_eqb_refl. reflexivity. Qed.
+Lemma diff_vs_m_sym n1 f1 v1 n2 f2 v2 : diff_vs_m n1 f1 v1 n2 f2 v2 = diff_vs_m n2 f2 v2 n1 f1 v1.
+Proof. unfold diff_vs_m. rewrite (Z.eqb_sym n2 n1), (list_eqb_sym _ field_eqb_sym f2 f1), (zlist_eqb_sym v2 v1). reflexivity. Qed.
+
+Lemma diff_obj_refl o : diff_obj o o = 0.
+Proof.
+  unfold diff_obj, obj_tag. destruct (o_body o); c19_cases;
+    first [reflexivity | apply diff_sds_m_refl | apply diff_gr_m_refl | apply diff_vs_m_refl].
+Qed.
+
+Lemma diff_obj_sym o1 o2 : diff_obj o1 o2 = diff_obj o2 o1.
+Proof.
+  unfold diff_obj, obj_tag. destruct (o_body o1), (o_body o2); c19_cases;
+    first [reflexivity | apply diff_sds_m_sym | apply diff_gr_m_sym | apply diff_vs_m_sym | discriminate | idtac].
+Qed.
+
+Lemma entry_cost_mirror e : entry_cost (mirror e) = entry_cost e.
+Proof. destruct e; simpl; try reflexivity. apply diff_obj_sym. Qed.
+
+Lemma match_m_sym l1 l2 : match_m l2 l1 = match_m l1 l2.
+Proof.
+  unfold match_m. rewrite <- (cmatch_mirror l1 l2), map_map. f_equal. apply map_ext. apply entry_cost_mirror.
+Qed.
+
+Lemma match_m_refl l : match_m l l = 0.
+Proof.
+  unfold match_m. rewrite cmatch_same, map_map. induction l as [|o l IH]; [reflexivity|].
+  cbn [map zsum entry_cost]. rewrite diff_obj_refl. cbn [entry_cost] in IH. rewrite IH. reflexivity.
+Qed.
+
+(** global attributes: SDfindattr finds the attribute itself when names are unique *)
+Lemma find_attr_in : forall g name a, find_attr name g = Some a -> In a g /\ a_name a = name.
+Proof.
+  induction g as [|b g IH]; intros name a H; [discriminate|]. simpl in H.
+  destruct (zlist_eqb name (a_name b)) eqn:E.
+  - injection H as <-. split; [left; reflexivity|]. symmetry. apply zlist_eqb_eq. assumption.
+  - destruct (IH _ _ H). split; [right; assumption | assumption].
+Qed.
+
+Lemma find_attr_none : forall g name, find_attr name g = None -> ~ In name (map a_name g).
+Proof.
+  induction g as [|b g IH]; intros name H; [intros []|]. simpl in H.
+  destruct (zlist_eqb name (a_name b)) eqn:E; [discriminate|].
+  intros [H1|H1]; [|exact (IH _ H H1)]. subst. rewrite zlist_eqb_refl in E. discriminate.
+Qed.
+
+Lemma find_attr_self : forall g a, NoDup (map a_name g) -> In a g -> find_attr (a_name a) g = Some a.
+Proof.
+  induction g as [|b g IH]; intros a ND Hin; [contradiction|]. simpl in ND. inversion ND as [|? ? Hnot ND']; subst.
+  simpl. destruct (zlist_eqb (a_name a) (a_name b)) eqn:E.
+  - apply zlist_eqb_eq in E. destruct Hin as [->|Hin]; [reflexivity|].
+    exfalso. apply Hnot. rewrite <- E. apply in_map. assumption.
+  - destruct Hin as [->|Hin]; [rewrite zlist_eqb_refl in E; discriminate|]. apply IH; assumption.
+Qed.
+
+Definition attr_agree (a b : attr) : bool :=
+  (a_type a =? a_type b) && (Z.of_nat (length (a_vals a)) =? Z.of_nat (length (a_vals b))) && zlist_eqb (a_vals a) (a_vals b).
+
+Lemma gattr_one_alt g2 a : gattr_one g2 a =
+  match find_attr (a_name a) g2 with None => 1 | Some b => if attr_agree a b then 0 else 1 end.
+Proof.
+  unfold gattr_one, attr_agree. destruct (find_attr (a_name a) g2); [|reflexivity].
+  destruct (a_type a =? a_type a0), (Z.of_nat (length (a_vals a)) =? Z.of_nat (length (a_vals a0))), (zlist_eqb (a_vals a) (a_vals a0)); reflexivity.
+Qed.
+
+Lemma attr_agree_sym a b : attr_agree a b = attr_agree b a.
+Proof. unfold attr_agree. rewrite (Z.eqb_sym (a_type a)), (Z.eqb_sym (Z.of_nat (length (a_vals a)))), (zlist_eqb_sym (a_vals a)). reflexivity. Qed.
+Lemma attr_agree_refl a : attr_agree a a = true.
+Proof. unfold attr_agree. rewrite !Z.eqb_refl, zlist_eqb_refl. reflexivity. Qed.
+
+Lemma zsum_zero_iff l : Forall (fun x => 0 <= x) l -> (zsum l = 0 <-> Forall (fun x => x = 0) l).
+Proof.
+  induction 1 as [|x l Hx Hl IH]; simpl; [split; auto|].
+  pose proof (zsum_nonneg l Hl). split.
+  - intros E. constructor; [lia|]. apply IH. lia.
+  - intros F. inversion F; subst. apply IH in H3. lia.
+Qed.
+
+Lemma gattr_one_nonneg g a : 0 <= gattr_one g a.
+Proof. rewrite gattr_one_alt. destruct (find_attr _ _); [destruct (attr_agree _ _)|]; lia. Qed.
+Lemma gattr_missing_nonneg g a : 0 <= gattr_missing g a.
+Proof. unfold gattr_missing. destruct (find_attr _ _); lia. Qed.
+Lemma map_nonneg {A} (f : A -> Z) l : (forall x, 0 <= f x) -> Forall (fun x => 0 <= x) (map f l).
+Proof. intros H. apply Forall_forall. intros x Hx. apply in_map_iff in Hx. destruct Hx as (e & <- & _). apply H. Qed.
+
+Lemma gattr_diff_nonneg g1 g2 : 0 <= gattr_diff_m g1 g2.
+Proof.
+  unfold gattr_diff_m.
+  pose proof (zsum_nonneg _ (map_nonneg (gattr_one g2) g1 (gattr_one_nonneg g2))).
+  pose proof (zsum_nonneg _ (map_nonneg (gattr_missing g1) g2 (gattr_missing_nonneg g1))). lia.
+Qed.
+
+(** gattr_diff = 0 says: every attribute of g1 is found in g2 and agrees; every name of g2 is found in g1 *)
+Lemma gattr_zero_iff g1 g2 : gattr_diff_m g1 g2 = 0 <->
+  (forall a, In a g1 -> exists b, find_attr (a_name a) g2 = Some b /\ attr_agree a b = true) /\
+  (forall b, In b g2 -> find_attr (a_name b) g1 <> None).
+Proof.
+  unfold gattr_diff_m.
+  pose proof (map_nonneg (gattr_one g2) g1 (gattr_one_nonneg g2)) as N1.
+  pose proof (map_nonneg (gattr_missing g1) g2 (gattr_missing_nonneg g1)) as N2.
+  pose proof (zsum_nonneg _ N1). pose proof (zsum_nonneg _ N2).
+  split.
+  - intros E. assert (E1 : zsum (map (gattr_one g2) g1) = 0) by lia. assert (E2 : zsum (map (gattr_missing g1) g2) = 0) by lia.
+    apply (zsum_zero_iff _ N1) in E1. apply (zsum_zero_iff _ N2) in E2. rewrite Forall_forall in E1, E2.
+    split.
+    + intros a Ha. specialize (E1 _ (in_map _ _ _ Ha)). rewrite gattr_one_alt in E1.
+      destruct (find_attr (a_name a) g2) as [b|]; [|discriminate]. exists b. split; [reflexivity|].
+      destruct (attr_agree a b); [reflexivity | discriminate].
+    + intros b Hb. specialize (E2 _ (in_map _ _ _ Hb)). unfold gattr_missing in E2.
+      destruct (find_attr (a_name b) g1); [discriminate | discriminate].
+  - intros [A B].
+    assert (E1 : zsum (map (gattr_one g2) g1) = 0).
+    { apply (zsum_zero_iff _ N1). apply Forall_forall. intros x Hx. apply in_map_iff in Hx. destruct Hx as (a & <- & Ha).
+      destruct (A a Ha) as (b & Fb & Ag). rewrite gattr_one_alt, Fb, Ag. reflexivity. }
+    assert (E2 : zsum (map (gattr_missing g1) g2) = 0).
+    { apply (zsum_zero_iff _ N2). apply Forall_forall. intros x Hx. apply in_map_iff in Hx. destruct Hx as (b & <- & Hb).
+      specialize (B b Hb). unfold gattr_missing. destruct (find_attr (a_name b) g1); [reflexivity | contradiction]. }
+    lia.
+Qed.
+
+Lemma gattr_refl g : NoDup (map a_name g) -> gattr_diff_m g g = 0.
+Proof.
+  intros ND. apply gattr_zero_iff. split.
+  - intros a Ha. exists a. split; [apply find_attr_self; assumption | apply attr_agree_refl].
+  - intros b Hb. rewrite find_attr_self by assumption. discriminate.
+Qed.
+
+Lemma gattr_zero_sym g1 g2 : NoDup (map a_name g2) -> gattr_diff_m g1 g2 = 0 -> gattr_diff_m g2 g1 = 0.
+Proof.
+  intros ND E. apply gattr_zero_iff in E. destruct E as [A B]. apply gattr_zero_iff. split.
+  - intros b Hb. specialize (B b Hb). destruct (find_attr (a_name b) g1) as [a|] eqn:Fa; [|contradiction].
+    exists a. split; [reflexivity|]. destruct (find_attr_in _ _ _ Fa) as [Ha Hn].
+    destruct (A a Ha) as (b' & Fb & Ag). rewrite Hn in Fb. rewrite find_attr_self in Fb by assumption.
+    injection Fb as <-. rewrite attr_agree_sym. assumption.
+  - intros a Ha. destruct (A a Ha) as (b & Fb & _). rewrite Fb. discriminate.
+Qed.
+
+Lemma hdiff_reflexive_lemma : forall f, NoDup (map a_name (f_gattrs f)) -> hdiff_m f f = 0 /\ hdiff_exit_m f f = 0.
+Proof.
+  intros f ND. assert (E : hdiff_m f f = 0) by (unfold hdiff_m; rewrite match_m_refl, gattr_refl by assumption; reflexivity).
+  split; [assumption|]. unfold hdiff_exit_m. rewrite E. reflexivity.
+Qed.
+
+Lemma hdiff_zero_sym f1 f2 : NoDup (map a_name (f_gattrs f2)) -> hdiff_m f1 f2 = 0 -> hdiff_m f2 f1 = 0.
+Proof.
+  unfold hdiff_m. intros ND E.
+  pose proof (match_m_nonneg (f_objs f1) (f_objs f2)). pose proof (gattr_diff_nonneg (f_gattrs f1) (f_gattrs f2)).
+  rewrite match_m_sym. rewrite (gattr_zero_sym (f_gattrs f1) (f_gattrs f2)) by (assumption || lia). lia.
+Qed.
+
+Lemma hdiff_symmetric_found_lemma : forall f1 f2,
+  NoDup (map a_name (f_gattrs f1)) -> NoDup (map a_name (f_gattrs f2)) ->
+  hdiff_exit_m f1 f2 = hdiff_exit_m f2 f1.
+Proof.
+  intros f1 f2 N1 N2. unfold hdiff_exit_m.
+  destruct (Z.eqb_spec (hdiff_m f1 f2) 0) as [E|E], (Z.eqb_spec (hdiff_m f2 f1) 0) as [E'|E']; try reflexivity.
+  - exfalso. apply E'. apply hdiff_zero_sym; assumption.
+  - exfalso. apply E. apply hdiff_zero_sym; assumption.
+Qed.
